@@ -13,6 +13,7 @@ from fim.slivers.capacities_labels import Capacities, Labels, StructuralInfo
 from fim.slivers.delegations import Delegation, Delegations, DelegationType
 
 from .store_adapter import tok
+from . import plainjson
 
 
 class MemCBM(ABCCBMPropertyGraph, NetworkXPropertyGraph):
@@ -108,19 +109,21 @@ class CBMRunner:
                 if not isinstance(text, str) or text == "":
                     continue                                  # no text / the erased marker: nothing delegated
                 try:
-                    ds = Delegations.from_json(json_str=text, atype=at)
+                    ent = {did: _det_token(det) for did, det in plainjson.delegation_entries(text).items()}
                 except Exception as e:                        # noqa: an undecodable stored delegation is an observation
                     deleg[t] = {"?undecodable": type(e).__name__} if as_cbm else "?undecodable"
                     continue
-                if ds is None:
+                if not ent:
                     continue
-                ent = {did: _det_token(dl.get_details_as_dict()) for did, dl in ds.delegations.items()}
                 if as_cbm:
                     deleg[t] = {k[4:] if k.startswith("adm-") else "?" + k: v for k, v in ent.items()}
                 else:
                     deleg[t] = list(ent.values())[0] if len(ent) == 1 else "?" + json.dumps(ent)
-            si = StructuralInfo.from_json(d.get("StructuralInfo")) if isinstance(d.get("StructuralInfo"), str) else None
-            adms = sorted(a[4:] if a.startswith("adm-") else "?" + a for a in (si.adm_graph_ids or [])) if si is not None else []
+            try:
+                ids = plainjson.adm_graph_ids(d.get("StructuralInfo")) if isinstance(d.get("StructuralInfo"), str) else []
+            except Exception:                                     # noqa
+                ids = ["?undecodable"]
+            adms = sorted(a[4:] if a.startswith("adm-") else "?" + a for a in ids)
             other = {k: v for k, v in d.items() if k not in ("GraphID", "NodeID", "Class", "CapacityDelegations", "LabelDelegations",
                                                             "StructuralInfo", "Name", "Type", "StitchNode")}
             props = other.get("Site") if set(other) == {"Site"} and d.get("Name") == x else "?" + tok(other)
